@@ -213,19 +213,29 @@ def h08_noargs(S, backend="redis"):
 
     cname, conv = [("basic", BasicConverter), ("pydantic", PydanticConverter), ("default", DefaultConverter)][S.pick("converter", 3)]
     args_kind = ["none", "empty-dict"][S.pick("args", 2)]
+    # the connection may have an argument bucket broker, and the actor a catch-all for whatever else arrives
+    with_bucket_broker = backend == "mem" and S.flag("connection_has_an_args_bucket_broker")
+    catch_all = S.flag("actor_has_catch_alls") if cname == "basic" else False
     S.tag("converter", cname)
     S.tag("backend", backend)
     got = []
+    extras = []
     out = {}
 
     async def main(loop):
-        w = World(backend=backend)
+        w = World(backend=backend, args_bucket=with_bucket_broker)
         await w.open(record=False)
         r = Router()
 
-        @r.actor(converter=conv)
-        async def actor(a: int = 5, *, b: int = 6):
-            got.append((a, b))
+        if catch_all:
+            @r.actor(converter=conv)
+            async def actor(a: int = 5, *rest, b: int = 6, **more):
+                got.append((a, b))
+                extras.append((rest, more))
+        else:
+            @r.actor(converter=conv)
+            async def actor(a: int = 5, *, b: int = 6):
+                got.append((a, b))
 
         await Job("actor", args=None if args_kind == "none" else {}, id_="m1", _connection=w.conn).enqueue()
         worker = Worker(routers=[r], handle_signals=[], _connection=w.conn, graceful_shutdown_time=1.0, messages_limit=1)
@@ -241,6 +251,8 @@ def h08_noargs(S, backend="redis"):
     S.cover("no-args-job")
     S.check("job-without-arguments-runs-the-all-defaults-actor", got == [(5, 6)], info=f"{cname} on {backend}, args={args_kind}: actor calls {got}; message is in {out['places']}")
     S.check("and-is-acknowledged", out["places"] == [], info=str(out["places"]))
+    if catch_all:
+        S.check("nothing-made-up-reaches-the-catch-alls", extras == [((), {})], info=f"*args/**kwargs of the actor: {extras}")
 
 
 def h08_bucket_reuse(S):
